@@ -559,6 +559,95 @@ static void check_handles(void)
   }
 }
 
+// ---- redirect.windows.c at the Win32 boundary (Windows half of C10: which object, which direction)
+static HANDLE std_handles[3];          // what GetStdHandle hands out for in/out/err in this case
+static DWORD rec_std_id[4], rec_cf_access, rec_cf_share, rec_cf_disp;
+static int n_std_calls, n_cf, rec_cf_inherit, rec_fileno_fd;
+static wchar_t rec_cf_name[300];
+static HANDLE next_file_handle;
+HANDLE GetStdHandle(DWORD id)
+{
+  if (n_std_calls < 4) rec_std_id[n_std_calls] = id;
+  n_std_calls++;
+  return id == STD_INPUT_HANDLE ? std_handles[0] : id == STD_OUTPUT_HANDLE ? std_handles[1] : id == STD_ERROR_HANDLE ? std_handles[2] : INVALID_HANDLE_VALUE;
+}
+HANDLE CreateFileW(LPCWSTR name, DWORD access, DWORD share, LPSECURITY_ATTRIBUTES sa, DWORD disposition, DWORD flags, HANDLE tmpl)
+{
+  (void) flags; (void) tmpl;
+  n_cf++;
+  wcsncpy(rec_cf_name, name, 299);
+  rec_cf_access = access;
+  rec_cf_share = share;
+  rec_cf_disp = disposition;
+  rec_cf_inherit = sa ? sa->bInheritHandle : -1;
+  return next_file_handle;
+}
+int _fileno(FILE *f) { return fileno(f); }
+intptr_t _get_osfhandle(int fd) { rec_fileno_fd = fd; return 0x7000 + fd; }
+int redirect_parent(HANDLE *child, REPROC_STREAM stream);
+int redirect_discard(HANDLE *child, REPROC_STREAM stream);
+int redirect_file(HANDLE *child, FILE *file);
+int redirect_path(HANDLE *child, REPROC_STREAM stream, const char *path);
+
+static long st_redirect_cases;
+static void check_redirect(void)
+{
+  st_redirect_cases++;
+  char msg[260];
+  HANDLE none[4] = { 0, 0, 0, 0 };
+  for (int st = 0; st < 3; st++) {
+    // parent: the caller's own stream of the same kind; none there -> "broken pipe" (the shared code then discards)
+    for (int i = 0; i < 3; i++) std_handles[i] = (HANDLE) (intptr_t) (0x5000 + 0x10 * i + (int) (rnd() % 8));
+    int missing = rnd() % 4 == 0;
+    if (missing) std_handles[st] = NULL;
+    n_std_calls = 0;
+    HANDLE got = (HANDLE) (intptr_t) 0x9999;
+    int r = redirect_parent(&got, (REPROC_STREAM) st);
+    DWORD want_id = st == 0 ? STD_INPUT_HANDLE : st == 1 ? STD_OUTPUT_HANDLE : STD_ERROR_HANDLE;
+    if (n_std_calls != 1 || rec_std_id[0] != want_id) {
+      snprintf(msg, sizeof msg, "redirect_parent(stream %d) asked GetStdHandle for id %d (%d calls)", st, (int) rec_std_id[0], n_std_calls);
+      hviol("win-parent-wrong-std-id", msg, none);
+    } else if (!missing && (r != 0 || got != std_handles[st])) {
+      snprintf(msg, sizeof msg, "redirect_parent(stream %d) returned %d, handle %p; the caller's is %p", st, r, got, std_handles[st]);
+      hviol("win-parent-wrong-handle", msg, none);
+    } else if (missing && r != -(int) ERROR_BROKEN_PIPE) {
+      snprintf(msg, sizeof msg, "redirect_parent(stream %d) with no such stream in the caller returned %d", st, r);
+      hviol("win-parent-missing-not-reported", msg, none);
+    }
+    // discard and path: opened for reading (stdin) or writing, not inheritable, existing content kept
+    for (int kind = 0; kind < 2; kind++) {
+      n_cf = 0;
+      next_file_handle = (HANDLE) (intptr_t) (0x6000 + (int) (rnd() % 4096) * 4);
+      got = (HANDLE) (intptr_t) 0x9999;
+      char path[64];
+      snprintf(path, sizeof path, "C:\\dir %d\\f\xc3\xa9%d.txt", (int) (rnd() % 100), st);
+      r = kind == 0 ? redirect_discard(&got, (REPROC_STREAM) st) : redirect_path(&got, (REPROC_STREAM) st, path);
+      DWORD want_access = st == 0 ? GENERIC_READ : GENERIC_WRITE;
+      bstr nm = utf16_to_utf8(rec_cf_name, wcslen(rec_cf_name));
+      const char *want_name = kind == 0 ? "NUL" : path;
+      if (r != 0 || n_cf != 1 || got != next_file_handle) {
+        snprintf(msg, sizeof msg, "%s(stream %d) returned %d after %d CreateFileW calls, handle %p", kind ? "redirect_path" : "redirect_discard", st, r, n_cf, got);
+        hviol("win-file-redirect-failed", msg, none);
+      } else {
+        if (rec_cf_access != want_access) {
+          snprintf(msg, sizeof msg, "%s(stream %d) opened with access %x, expected %x", kind ? "redirect_path" : "redirect_discard", st, rec_cf_access, want_access);
+          hviol("win-file-wrong-direction", msg, none);
+        }
+        if (nm.n != strlen(want_name) || memcmp(nm.p, want_name, nm.n) != 0) {
+          snprintf(msg, sizeof msg, "%s(stream %d) opened a different name than %s", kind ? "redirect_path" : "redirect_discard", st, want_name);
+          hviol("win-file-wrong-name", msg, none);
+        }
+        if (rec_cf_inherit != 0) hviol("win-file-inheritable", "file opened for a redirect is inheritable by every child", none);
+        if (rec_cf_disp != OPEN_ALWAYS) hviol("win-file-disposition", "file not opened with OPEN_ALWAYS (create if missing, keep otherwise)", none);
+      }
+      free(nm.p);
+    }
+  }
+  HANDLE got = NULL;
+  int r = redirect_file(&got, stderr);
+  if (r != 0 || got != (HANDLE) (intptr_t) (0x7000 + fileno(stderr))) hviol("win-file-handle", "redirect_file does not yield the OS handle of the FILE", none);
+}
+
 // Windows halves of C01 (status decoding), C06 (the right process is waited for / signalled) and
 // C07 (terminate = CTRL-BREAK to the child's own group, kill = TerminateProcess with 137), at the
 // Win32 boundary.
@@ -601,6 +690,14 @@ int main(int argc, char **argv)
 {
   wrap_init();
   wrap_reset_case();
+  if (argc >= 6 && !strcmp(argv[1], "--redirect")) {
+    long w = atol(argv[2]), nw = atol(argv[3]);
+    rs = (uint64_t) atol(argv[5]) * 0x9E3779B97F4A7C15ULL + (uint64_t) w * 313 + 9;
+    long n = (!strcmp(argv[4], "thorough") ? 100000 : 4000) / nw + 1;
+    for (long i = 0; i < n; i++) check_redirect();
+    printf("H\t%ld\t%ld\n", st_redirect_cases, st_viol);
+    return st_viol ? 1 : 0;
+  }
   if (argc >= 6 && !strcmp(argv[1], "--life")) {
     long w = atol(argv[2]), nw = atol(argv[3]);
     rs = (uint64_t) atol(argv[5]) * 0x9E3779B97F4A7C15ULL + (uint64_t) w * 977 + 3;
